@@ -133,7 +133,13 @@ PreVoteRequest(ns, r, now) ==
   ELSE IF LogBehind(ns, r) THEN Ans(ns, LogMismatchRsp(ns))
   ELSE Ans(ns, Rsp("Ok", 0))
 
-VoteRequest(ns, r) ==
+\* A candidate that is asked for its vote in a NEWER term gives its own candidacy up and considers the request like a node
+\* in Election state (repair of D24: in a cluster of two, two nodes whose terms differ by one refused each other for ever -
+\* the one behind as a Candidate answered LeaderMismatch, the one ahead answered TermMismatch). FALSE = the code before it.
+CandidateYields == TRUE
+
+VoteRequest(ns0, r) ==
+  LET ns == IF CandidateYields /\ ns0.st = "Candidate" /\ r.term > ns0.term THEN [ns0 EXCEPT !.st = "Election"] ELSE ns0 IN
   IF ns.st \in {"Leader", "Candidate", "Follower"} THEN Ans(ns, Rsp("LeaderMismatch", 0))
   ELSE IF ns.st = "Voted" /\ r.term <= ns.sa THEN Ans(ns, Rsp("AlreadyVoted", 0))
   ELSE IF ns.term >= r.term THEN Ans(ns, Rsp("TermMismatch", ns.term))
